@@ -10,10 +10,6 @@ variable {net : Nat → Info} {c : Nat} {s : St} {U : List Nat}
 def ActsIn (U : List Nat) (acts : List Act) : Prop :=
   ∀ a ∈ acts, ∀ ctx hs, a = Act.load ctx hs → ∀ h ∈ hs, h ∈ U
 
-theorem mem_removeAt {l l1 l2 : List Worker} {w w' : Worker} {i : Nat} (hw : l = l1 ++ w :: l2)
-    (hrm : removeAt l i = l1 ++ l2) (h : w' ∈ removeAt l i) : w' ∈ l := by
-  rw [hrm] at h; rw [hw]; exact mem_split_of h
-
 theorem StIn.step (hU : Closed net U) (hin : StIn U s) (a : Act)
     (ha : ∀ ctx hs, a = Act.load ctx hs → ∀ h ∈ hs, h ∈ U) : StIn U (step net s a) := by
   cases a with
@@ -30,6 +26,7 @@ theorem StIn.step (hU : Closed net U) (hin : StIn U s) (a : Act)
       obtain ⟨ctx, hh, pc⟩ := w
       cases pc with
       | fetching => simp only [Orbit.Repl.step, hwi]; exact hin
+      | finishing => simp only [Orbit.Repl.step, hwi]; exact hin
       | waitSlot =>
         simp only [Orbit.Repl.step, hwi]
         obtain ⟨l1, l2, hw, _, hrm, hset⟩ := split_at hwi
@@ -68,6 +65,7 @@ theorem StIn.step (hU : Closed net U) (hin : StIn U s) (a : Act)
       obtain ⟨ctx, hh, pc⟩ := w
       cases pc with
       | waitSlot => simp only [Orbit.Repl.step, hwi]; exact hin
+      | finishing => simp only [Orbit.Repl.step, hwi]; exact hin
       | fetching =>
         simp only [Orbit.Repl.step, hwi]
         obtain ⟨l1, l2, hw, _, hrm, _⟩ := split_at hwi
@@ -82,40 +80,61 @@ theorem StIn.step (hU : Closed net U) (hin : StIn U s) (a : Act)
           rcases List.mem_cons.1 hk with rfl | hk
           · exact hhU
           · exact hin.failed k hk
-  | fetchOk i =>
+  | fetched i =>
     cases hwi : s.workers[i]? with
     | none => simp only [Orbit.Repl.step, hwi]; exact hin
     | some w =>
       obtain ⟨ctx, hh, pc⟩ := w
       cases pc with
       | waitSlot => simp only [Orbit.Repl.step, hwi]; exact hin
+      | finishing => simp only [Orbit.Repl.step, hwi]; exact hin
       | fetching =>
         simp only [Orbit.Repl.step, hwi]
         by_cases hc : s.cancelled.contains ctx = true
         · rw [if_pos hc]; exact hin
         rw [if_neg hc]
-        obtain ⟨l1, l2, hw, _, hrm, _⟩ := split_at hwi
+        obtain ⟨l1, l2, hw, _, _, hset⟩ := split_at hwi
         have hhU : hh ∈ U :=
           hin.workers ⟨ctx, hh, .fetching⟩ (hw ▸ List.mem_append.2 (Or.inr List.mem_cons_self))
+        have hset' : ∀ w' ∈ s.workers.set i ⟨ctx, hh, .finishing⟩, w'.item ∈ U := by
+          intro w' hw'
+          rw [hset] at hw'
+          rcases List.mem_append.1 hw' with h' | h'
+          · exact hin.workers w' (hw ▸ List.mem_append.2 (Or.inl h'))
+          · rcases List.mem_cons.1 h' with rfl | h'
+            · exact hhU
+            · exact hin.workers w' (hw ▸ List.mem_append.2 (Or.inr (List.mem_cons_of_mem _ h')))
         cases hf : (net hh).foreign with
         | true =>
           simp only [if_true]
-          refine ⟨?_, by rw [done_failed]; exact hin.failed⟩
-          rw [done_workers]
-          intro w' hw'
-          exact hin.workers w' (mem_removeAt hw hrm hw')
+          exact ⟨hset', hin.failed⟩
         | false =>
           simp only [Bool.false_eq_true, if_false]
-          show StIn U (done (List.foldl (enqueue ctx) (okPre s i hh) (net hh).links) hh)
-          obtain ⟨nw, hnd, hnew, hcov, heq⟩ := foldl_enqueue_spec ctx (net hh).links (okPre s i hh)
+          show StIn U (List.foldl (enqueue ctx) (okPre s i ctx hh) (net hh).links)
+          obtain ⟨nw, hnd, hnew, hcov, heq⟩ := foldl_enqueue_spec ctx (net hh).links (okPre s i ctx hh)
           rw [heq]
-          refine ⟨?_, by rw [done_failed]; exact hin.failed⟩
-          rw [done_workers, enqd_workers]
+          refine ⟨?_, hin.failed⟩
+          rw [enqd_workers]
           intro w' hw'
           rcases List.mem_append.1 hw' with hw' | hw'
-          · exact hin.workers w' (mem_removeAt hw hrm hw')
+          · exact hset' w' hw'
           · obtain ⟨k, hk, rfl⟩ := mem_spawn.1 hw'
             exact hU hh hhU hf k (hnew k hk).1
+  | finish i =>
+    cases hwi : s.workers[i]? with
+    | none => simp only [Orbit.Repl.step, hwi]; exact hin
+    | some w =>
+      obtain ⟨ctx, hh, pc⟩ := w
+      cases pc with
+      | waitSlot => simp only [Orbit.Repl.step, hwi]; exact hin
+      | fetching => simp only [Orbit.Repl.step, hwi]; exact hin
+      | finishing =>
+        simp only [Orbit.Repl.step, hwi]
+        obtain ⟨l1, l2, hw, _, hrm, _⟩ := split_at hwi
+        refine ⟨?_, by rw [done_failed]; exact hin.failed⟩
+        rw [done_workers]
+        intro w' hw'
+        exact hin.workers w' (mem_removeAt hw hrm hw')
 
 theorem StIn.run (hU : Closed net U) (hin : StIn U s) {acts : List Act} (ha : ActsIn U acts) :
     StIn U (run net s acts) := by
@@ -147,6 +166,7 @@ theorem step_cancelled (a : Act) (ha : ∀ ctx, a ≠ Act.cancel ctx) :
       obtain ⟨ctx, hh, pc⟩ := w
       cases pc with
       | fetching => simp only [Orbit.Repl.step, hwi]
+      | finishing => simp only [Orbit.Repl.step, hwi]
       | waitSlot =>
         simp only [Orbit.Repl.step, hwi]
         split
@@ -158,22 +178,29 @@ theorem step_cancelled (a : Act) (ha : ∀ ctx, a ≠ Act.cancel ctx) :
     | some w =>
       obtain ⟨ctx, hh, pc⟩ := w
       cases pc <;> simp only [Orbit.Repl.step, hwi, failedDone_cancelled]
-  | fetchOk i =>
+  | fetched i =>
     cases hwi : s.workers[i]? with
     | none => simp only [Orbit.Repl.step, hwi]
     | some w =>
       obtain ⟨ctx, hh, pc⟩ := w
       cases pc with
       | waitSlot => simp only [Orbit.Repl.step, hwi]
+      | finishing => simp only [Orbit.Repl.step, hwi]
       | fetching =>
         simp only [Orbit.Repl.step, hwi]
         split
         · rfl
         · split
-          · rw [done_cancelled]
-          · obtain ⟨nw, _, _, _, heq⟩ := foldl_enqueue_spec ctx (net hh).links (okPre s i hh)
-            show (done (List.foldl (enqueue ctx) (okPre s i hh) (net hh).links) hh).cancelled = _
-            rw [heq, done_cancelled]; rfl
+          · rfl
+          · obtain ⟨nw, _, _, _, heq⟩ := foldl_enqueue_spec ctx (net hh).links (okPre s i ctx hh)
+            show (List.foldl (enqueue ctx) (okPre s i ctx hh) (net hh).links).cancelled = _
+            rw [heq]; rfl
+  | finish i =>
+    cases hwi : s.workers[i]? with
+    | none => simp only [Orbit.Repl.step, hwi]
+    | some w =>
+      obtain ⟨ctx, hh, pc⟩ := w
+      cases pc <;> simp only [Orbit.Repl.step, hwi, done_cancelled]
 
 /-- a history without cancellation leaves no worker of a cancelled request -/
 theorem clean_of_no_cancel {acts : List Act} (ha : ∀ ctx, Act.cancel ctx ∉ acts) :
